@@ -68,19 +68,59 @@ func bigDigest(S int, vname, part, hash string, data []byte) string {
 	return h
 }
 
+// bigWant says whether (size, variant, ref kind) belongs to the tier's list.
+// quick keeps the boundary cases only:
+//
+//	16MiB-1: T accepted
+//	16MiB:   T accepted (+ foo-0 rejected); each bit flip under T's ref; one byte appended under T's ref
+//	         (the first 16 MiB match!) and under its own ref (matches but oversize)
+//	16MiB+1: T under its own ref (oversize) and under the ref of its 16 MiB head
+func bigWant(S int, vname, kind string) bool {
+	if vk.Thorough() {
+		return true
+	}
+	switch {
+	case S == maxBlob-1:
+		return vname == "T" && kind == "sha224:T"
+	case S == maxBlob:
+		switch vname {
+		case "T":
+			return kind == "sha224:T" || kind == "foo-0"
+		case "flip:first", "flip:mid", "flip:last":
+			return kind == "sha224:T"
+		case "ext":
+			return true
+		}
+		return false
+	}
+	return vname == "T" && (kind == "sha224:T" || kind == "sha224:head")
+}
+
 func bigCases(gr *group) []*tcase {
-	S := gr.TLen
+	sizes := []int{gr.TLen}
+	if gr.TLen == 0 {
+		sizes = bigSizes
+	}
+	var out []*tcase
+	for _, S := range sizes {
+		out = append(out, bigCasesOf(gr, S)...)
+	}
+	for i, c := range out {
+		c.Index = i
+	}
+	return out
+}
+
+func bigCasesOf(gr *group, S int) []*tcase {
 	var out []*tcase
 	add := func(vname, kind string, R blob.Ref, O []byte, mode string, full, head bool) {
-		out = append(out, &tcase{Scenario: "big", Tier: vk.Tier(), Backend: gr.bs.spec.Name, Path: gr.Path, TLen: S, Pre: "absent",
+		out = append(out, &tcase{Scenario: "big", Tier: vk.Tier(), Backend: gr.bs.name, Path: gr.Path, TLen: S, GroupTLen: gr.TLen, Pre: "absent",
 			Off: vname, RefKind: kind, Ref: R.String(), Mode: mode, T: bigBase()[:S], O: O, R: R, matchFull: full, matchHead: head})
 	}
 	var modes []string
 	switch gr.Path {
-	case "put":
+	case "put", "putw", "mpw1":
 		modes = []string{"whole", "nocl"} // Content-Length known / unknown
-	case "putw", "mpw1":
-		modes = []string{"whole", "nocl"}
 	case "receive":
 		modes = []string{"whole"}
 		if vk.Thorough() {
@@ -90,45 +130,59 @@ func bigCases(gr *group) []*tcase {
 		modes = []string{"whole"}
 	}
 	T := bigBase()[:S]
-	refT := blob.MustParse("sha224-" + bigDigest(S, "T", "all", "sha224", T))
+	var refT blob.Ref
+	getRefT := func() blob.Ref {
+		if !refT.Valid() {
+			refT = blob.MustParse("sha224-" + bigDigest(S, "T", "all", "sha224", T))
+		}
+		return refT
+	}
+	type rk struct {
+		kind       string
+		R          func() blob.Ref
+		full, head bool
+	}
 	for _, vname := range bigVariantNames {
+		anyWanted := false
+		for _, k := range []string{"sha224:T", "sha224:O", "sha1:T", "sha256:T", "foo-0", "sha224:head"} {
+			anyWanted = anyWanted || bigWant(S, vname, k)
+		}
+		if !anyWanted {
+			continue
+		}
 		O := bigVariant(S, vname)
 		over := len(O) > maxBlob
-		type rk struct {
-			kind       string
-			R          blob.Ref
-			full, head bool
-		}
 		var refs []rk
-		// sha224 of T: matches only the variant T; its 16 MiB head when S = 16 MiB and one byte was appended
-		refs = append(refs, rk{"sha224:T", refT, vname == "T", over && vname == "ext" && S == maxBlob})
+		// sha224 of T: matches only the variant T; it is the ref of the 16 MiB head when S = 16 MiB and one byte was appended
+		refs = append(refs, rk{"sha224:T", getRefT, vname == "T", over && vname == "ext" && S == maxBlob})
 		if vname != "T" {
-			refs = append(refs, rk{"sha224:O", blob.MustParse("sha224-" + bigDigest(S, vname, "all", "sha224", O)), true, false})
+			refs = append(refs, rk{"sha224:O", func() blob.Ref { return blob.MustParse("sha224-" + bigDigest(S, vname, "all", "sha224", O)) }, true, false})
 		} else {
 			refs = append(refs,
-				rk{"sha1:T", blob.MustParse("sha1-" + bigDigest(S, "T", "all", "sha1", T)), true, false},
-				rk{"sha256:T", blob.MustParse("sha256-" + bigDigest(S, "T", "all", "sha256", T)), true, false})
+				rk{"sha1:T", func() blob.Ref { return blob.MustParse("sha1-" + bigDigest(S, "T", "all", "sha1", T)) }, true, false},
+				rk{"sha256:T", func() blob.Ref { return blob.MustParse("sha256-" + bigDigest(S, "T", "all", "sha256", T)) }, true, false})
 			if gr.Path != "direct" && gr.Path != "nohash" {
-				refs = append(refs, rk{"foo-0", blob.MustParse("foo-0"), false, false})
+				refs = append(refs, rk{"foo-0", func() blob.Ref { return blob.MustParse("foo-0") }, false, false})
 			}
 		}
 		if over && S > maxBlob && (vname == "T" || vname == "ext" || vname == "flip:last") {
 			// the ref of the first 16 MiB of an oversize upload
-			refs = append(refs, rk{"sha224:head", blob.MustParse("sha224-" + bigDigest(S, vname, "head", "sha224", O[:maxBlob])), false, true})
+			refs = append(refs, rk{"sha224:head", func() blob.Ref { return blob.MustParse("sha224-" + bigDigest(S, vname, "head", "sha224", O[:maxBlob])) }, false, true})
+		}
+		if vname == "T" && vk.Thorough() && (gr.Path == "receive" || gr.Path == "put") {
+			// the source fails one byte before the end / exactly at the end
+			// (before the plain upload of T, so that the ref is still absent)
+			add(vname, "sha224:T", getRefT(), O, fmt.Sprintf("err:%d", len(O)-1), true, false)
+			add(vname, "sha224:T", getRefT(), O, fmt.Sprintf("errd:%d", len(O)), true, false)
 		}
 		for _, r := range refs {
+			if !bigWant(S, vname, r.kind) {
+				continue
+			}
 			for _, mode := range modes {
-				add(vname, r.kind, r.R, O, mode, r.full, r.head)
+				add(vname, r.kind, r.R(), O, mode, r.full, r.head)
 			}
 		}
-		if vname == "T" && (gr.Path == "receive" || gr.Path == "put") {
-			// the source fails one byte before the end / exactly at the end
-			add(vname, "sha224:T", refT, O, fmt.Sprintf("err:%d", len(O)-1), true, false)
-			add(vname, "sha224:T", refT, O, fmt.Sprintf("errd:%d", len(O)), true, false)
-		}
-	}
-	for i, c := range out {
-		c.Index = i
 	}
 	return out
 }
